@@ -128,3 +128,7 @@ fn test_explicit_case_bitmasks() {
         vec![m(0b111), m(0b11000)],
     );
 }
+
+#[cfg(kani)]
+#[path = "/verif/contracts/kani/diff_switch_utils.rs"]
+mod verif_kani;
